@@ -356,6 +356,14 @@ for i, nm in enumerate(("Union", "Intersection", "Difference", "SymmetricDiffere
     add("c19_debug_" + nm.lower(), "c19::h_debug_adaptor::<{N}, {M}>(%d, {A}, {B}, {C})" % i, ["C19"], [{"N": 1, "M": 1, "A": 1, "B": 1, "C": c} for c in (0, 1)] if i < 3 else [],
         ([{"N": 2, "M": 1, "A": 2, "B": 1, "C": c} for c in (0, 1)] if i in (1, 2) else []) + [{"N": 1, "M": 1, "A": 1, "B": 1, "C": 0}], unwind="max(N,M,6)+2", fn="Debug for " + nm, shape="S_fmt", timeout="30m")
 
+ENTRIES_STUB = "#[kani::stub(core::fmt::DebugList::entries, c19::entries_recording_stub)]"
+# Union / SymmetricDifference (Chain) and DifferenceRef did not finish at 3x2 within 15 min with the same stub and are not instantiated
+for i, nm in ((1, "Intersection"), (2, "Difference")):
+    add("c19_debug_items_" + nm.lower(), "c19::h_debug_adaptor_items::<{N}, {M}>(%d, {A}, {B}, {C})" % i, ["C19"],
+        [{"N": 3, "M": 2, "A": 3, "B": 2, "C": c} for c in (0, 1)] + [{"N": 2, "M": 3, "A": 2, "B": 3, "C": 0}],
+        [{"N": 3, "M": 3, "A": 3, "B": 3, "C": c} for c in (0, 2)] + [{"N": 4, "M": 2, "A": 4, "B": 2, "C": 1}], unwind="max(N,M,6)+3", attrs=[ENTRIES_STUB],
+        fn="Debug for " + nm + " - the items handed to DebugList::entries (entries itself stubbed by a recorder: assumed to render each item once, in order)", shape="S_fmt", timeout="30m")
+
 # ------------------------------------------------------------------ C20 serde round trip (feature serde)
 def NMA(triples):
     return [{"N": n, "M": m, "A": a} for n, m, a in triples]
